@@ -331,63 +331,78 @@ theorem C24_canon_stream_failure_is_catchable (sc : Scalars) (henv : EnvTotal sc
 
 /-! ## canon maps -/
 
-/-- **A canon map: the first accessor selects a key group, the rest is a canon-stream lens on the group.**
+/-- a canon-stream lens on a key group (`select_by_path_from_canon_map_stream`): success iff plain navigation of
+the group as an array -/
+theorem canonMapStream_ok (sc : Scalars) (g : List JVal) (b : ValueAccessor) (bs : List ValueAccessor) (r : JVal) :
+    selectByPathFromCanonMapStream sc g b bs = .ok r ↔
+      ∃ steps, resolveSteps sc (b :: bs) = some steps ∧ navigate (.arr g) steps = some r := by
+  have hstream := (C24_canon_stream sc g (.valuePath b bs) r).1
+  simp only [selectByLambdaFromStream, selectByPathFromStream, resolveLambda] at hstream
+  rw [← hstream]
+  simp only [selectByPathFromCanonMapStream]
+  cases hi : splitToIdx sc b with
+  | error e => simp
+  | panic p => simp
+  | ok idx =>
+    simp only []
+    cases hx : g[idx]? with
+    | none => simp [lambdaErr, catchable]
+    | some x =>
+      simp only []
+      cases bs with
+      | nil => simp [Lens.selectByPathFromScalar]
+      | cons c cs =>
+        simp only [List.isEmpty_cons, Bool.false_eq_true, if_false]
+        cases Lens.selectByPathFromScalar sc x (c :: cs) <;> simp
+
+/-- once the first accessor has given the key `k`, the canon-map lens is: the key group of `k` as an array for
+the bare key, else the canon-stream lens on that group — whether or not the key is in the map (for an absent
+key the group is empty) -/
+theorem canonMap_select_group (sc : Scalars) (pairs : List JVal) (m : CanonStreamMap)
+    (hm : CanonStreamMap.fromCanonStream pairs = .ok m) (h : ValueAccessor) (body : List ValueAccessor)
+    (k : StreamMapKey) (hk : canonMapKeyOfPrefix sc h = .ok k) :
+    selectByPathFromCanonMap sc m h body =
+      match body with
+      | [] => .ok (.arr (keyGroup pairs k))
+      | b :: bs => selectByPathFromCanonMapStream sc (keyGroup pairs k) b bs := by
+  have hidx := index_eq_keyGroup pairs m hm k
+  simp only [selectByPathFromCanonMap, hk]
+  by_cases he : keyGroup pairs k = []
+  · simp only [he, if_true] at hidx
+    rw [hidx, he]
+    cases body <;> rfl
+  · simp only [he, if_false] at hidx
+    rw [hidx]
+    cases body <;> rfl
+
+/-- **A canon map: the first accessor selects a key group, the rest is plain navigation of the group.**
 `pairs` are the map's `{"key": k, "value": v}` objects in canon order, `keyGroup pairs k` the values inserted
-under `k` (typed keys: the string `"1"` and the integer `1` are different keys).
+under `k` (typed keys: the string `"1"` and the integer `1` are different keys); the group of a key that is not
+in the map is empty.
 * The first accessor denotes the key `k` (a name → string key, `[n]` → integer key, a plain scalar holding a
   string or an integer → that key; an iterator, a float or any other JSON type → error).
-* Key present: with no further accessors the result is the group as an array; with further accessors the
-  result is plain navigation of that array (so the next accessor must be an index).
-* **Key absent: the result is `[]` whatever accessors follow** — exactly what the code does
-  (`select_by_path_from_canon_map`, arm `_ =>`); for a non-empty rest this deviates from plain navigation,
-  which is impossible on the empty group (see `C24_canon_map_absent_key`). -/
+* With no further accessors the result is the group as an array (`[]` for an absent key); with further
+  accessors the result is plain navigation of that array (so the next accessor must be an index that exists:
+  on an absent key every further accessor fails).  No guard on the presence of the key (repaired code, 766497d). -/
 theorem C24_canon_map (sc : Scalars) (pairs : List JVal) (m : CanonStreamMap)
     (hm : CanonStreamMap.fromCanonStream pairs = .ok m) (h : ValueAccessor) (body : List ValueAccessor) :
     (∀ k, canonMapKeyOfPrefix sc h = .ok k ↔ resolveMapKey sc h = some k) ∧
-    (∀ k, resolveMapKey sc h = some k →
-      (keyGroup pairs k ≠ [] → ∀ r, selectByPathFromCanonMap sc m h body = .ok r ↔
+    (∀ k, resolveMapKey sc h = some k → ∀ r, selectByPathFromCanonMap sc m h body = .ok r ↔
           ∃ steps, resolveSteps sc body = some steps ∧ navigate (.arr (keyGroup pairs k)) steps = some r) ∧
-      (keyGroup pairs k = [] → selectByPathFromCanonMap sc m h body = .ok (.arr []))) ∧
     (resolveMapKey sc h = none → ∀ r, selectByPathFromCanonMap sc m h body ≠ .ok r) := by
   refine ⟨canonMapKeyOfPrefix_ok sc h, ?_, ?_⟩
-  · intro k hk
+  · intro k hk r
     have hkey := (canonMapKeyOfPrefix_ok sc h k).mpr hk
-    have hidx := index_eq_keyGroup pairs m hm k
-    constructor
-    · intro hne r
-      simp only [hne, if_false] at hidx
-      simp only [selectByPathFromCanonMap, hkey, hidx]
-      cases body with
-      | nil =>
-        simp only [resolveSteps]
-        constructor
-        · intro hr; injection hr with hr; exact ⟨[], rfl, by simp [navigate, hr]⟩
-        · rintro ⟨steps, h1, h2⟩
-          injection h1 with h1; subst h1
-          simp only [navigate] at h2; injection h2 with h2; rw [h2]
-      | cons b bs =>
-        -- the canon-stream rule on the group
-        have hstream := (C24_canon_stream sc (keyGroup pairs k) (.valuePath b bs) r).1
-        simp only [selectByLambdaFromStream, selectByPathFromStream, resolveLambda] at hstream
-        rw [← hstream]
-        simp only [selectByPathFromCanonMapStream]
-        cases hi : splitToIdx sc b with
-        | error e => simp
-        | panic p => simp
-        | ok idx =>
-          simp only []
-          cases hx : (keyGroup pairs k)[idx]? with
-          | none => simp [lambdaErr, catchable]
-          | some x =>
-            simp only []
-            cases bs with
-            | nil => simp [Lens.selectByPathFromScalar]
-            | cons c cs =>
-              simp only [List.isEmpty_cons, Bool.false_eq_true, if_false]
-              cases Lens.selectByPathFromScalar sc x (c :: cs) <;> simp
-    · intro he
-      simp only [he, if_true] at hidx
-      simp only [selectByPathFromCanonMap, hkey, hidx]
+    rw [canonMap_select_group sc pairs m hm h body k hkey]
+    cases body with
+    | nil =>
+      simp only [resolveSteps]
+      constructor
+      · intro hr; injection hr with hr; exact ⟨[], rfl, by simp [navigate, hr]⟩
+      · rintro ⟨steps, h1, h2⟩
+        injection h1 with h1; subst h1
+        simp only [navigate] at h2; injection h2 with h2; rw [h2]
+    | cons b bs => exact canonMapStream_ok sc (keyGroup pairs k) b bs r
   · intro hnone r hr
     simp only [selectByPathFromCanonMap] at hr
     cases hk : canonMapKeyOfPrefix sc h with
@@ -395,39 +410,95 @@ theorem C24_canon_map (sc : Scalars) (pairs : List JVal) (m : CanonStreamMap)
     | error e => simp [hk] at hr
     | panic p => simp [hk] at hr
 
-/-- **The deviation, stated on its own**: for a key that is not in the map the lens result is the empty
-array no matter what follows the key — e.g. `#%m.$.absent.[0].field` is `[]`, although plain navigation of
-the (empty) group by `[0]` is impossible (`navigate (.arr []) (.idx i :: _) = none`) and the same lens on a
-present key with too few values fails with `CanonStreamNotHaveEnoughValues`. -/
+/-- **The property at full strength for canon maps** (no key-present guard): a lens on a canon map succeeds with
+`r` exactly when its first accessor denotes a key and plain navigation of that key's group — the empty array for
+a key that is not in the map — along the remaining accessors reaches `r`. -/
+theorem C24_canon_map_full (sc : Scalars) (pairs : List JVal) (m : CanonStreamMap)
+    (hm : CanonStreamMap.fromCanonStream pairs = .ok m) (h : ValueAccessor) (body : List ValueAccessor) (r : JVal) :
+    selectByPathFromCanonMap sc m h body = .ok r ↔
+      ∃ k steps, resolveMapKey sc h = some k ∧ resolveSteps sc body = some steps ∧
+        navigate (.arr (keyGroup pairs k)) steps = some r := by
+  obtain ⟨_, hsome, hnone⟩ := C24_canon_map sc pairs m hm h body
+  cases hk : resolveMapKey sc h with
+  | none =>
+    constructor
+    · intro hr; exact absurd hr (hnone hk r)
+    · rintro ⟨k, _, hk', _⟩; cases hk'
+  | some k =>
+    rw [hsome k hk r]
+    constructor
+    · rintro ⟨steps, h1, h2⟩; exact ⟨k, steps, rfl, h1, h2⟩
+    · rintro ⟨k', steps, hk', h1, h2⟩; injection hk' with hk'; subst hk'; exact ⟨steps, h1, h2⟩
+
+/-- the first accessor of a stream lens that denotes a step gives an index or fails with a `LambdaApplierError` -/
+theorem splitToIdx_resolved (sc : Scalars) (b : ValueAccessor) (s : Step) (hs : resolveStep sc b = some s) :
+    (∃ i, splitToIdx sc b = .ok i) ∨ (∃ e, splitToIdx sc b = .error (.catchable (.lambdaApplierError e))) := by
+  cases b with
+  | arrayAccess i => exact .inl ⟨i, rfl⟩
+  | fieldAccessByName n => exact .inr ⟨_, rfl⟩
+  | fieldAccessByScalar nm =>
+    simp only [resolveStep, scalarValue] at hs
+    simp only [splitToIdx]
+    cases hg : sc.getValue nm with
+    | error e => simp [hg] at hs
+    | panic p => simp [hg] at hs
+    | ok ref =>
+      simp only [hg] at hs
+      simp only [tryScalarRefAsIdx_eq]
+      cases hv : scalarRefValue ref with
+      | error e => simp [hv] at hs
+      | panic p => simp [hv] at hs
+      | ok a =>
+        simp only [Res.bind]
+        cases h2 : tryJvalueAsIdx a with
+        | ok i => exact .inl ⟨i, by simp [liftLambda, Res.mapErr]⟩
+        | error e => exact .inr ⟨e, by simp [liftLambda, Res.mapErr]⟩
+        | panic p => exact absurd h2 (tryJvalueAsIdx_no_panic a p)
+  | error => simp [resolveStep] at hs
+
+/-- **A key that is not in the map is the empty key group**: the bare key gives `[]` (as the code documents:
+"There will be an empty canon stream if the key was not found"); any further accessor fails — never a value —
+with `CanonStreamNotHaveEnoughValues { stream_size: 0, idx }` when it denotes an index, and with a
+`LambdaApplierError` whenever it denotes a step at all.  (Before 766497d the code returned `[]` here and
+ignored the remaining accessors.) -/
 theorem C24_canon_map_absent_key (sc : Scalars) (pairs : List JVal) (m : CanonStreamMap)
     (hm : CanonStreamMap.fromCanonStream pairs = .ok m) (h : ValueAccessor) (k : StreamMapKey)
     (hk : resolveMapKey sc h = some k) (habsent : keyGroup pairs k = []) :
-    (∀ body, selectByPathFromCanonMap sc m h body = .ok (.arr [])) ∧
-    (∀ s rest, navigate (.arr []) (s :: rest) = none ∨ s = .length) := by
-  constructor
-  · intro body; exact ((C24_canon_map sc pairs m hm h body).2.1 k hk).2 habsent
-  · intro s rest
-    cases s <;> simp [navigate, navigateStep]
-
-/-- The property at full strength for canon maps — "a lens succeeds only where plain navigation of the selected
-key group is possible, with that result" — without the guard `keyGroup pairs k ≠ []` of `C24_canon_map`. -/
-def C24_canon_map_full : Prop :=
-  ∀ (sc : Scalars) (pairs : List JVal) (m : CanonStreamMap), CanonStreamMap.fromCanonStream pairs = .ok m →
-    ∀ (h : ValueAccessor) (body : List ValueAccessor) (k : StreamMapKey) (r : JVal), resolveMapKey sc h = some k →
-      selectByPathFromCanonMap sc m h body = .ok r →
-        ∃ steps, resolveSteps sc body = some steps ∧ navigate (.arr (keyGroup pairs k)) steps = some r
-
-/-- **The full-strength statement is false for the code as it is** (the finding
-`canon-map-absent-key-ignores-rest-of-lens`): on the empty map, `#%m.$.zz.[0]` succeeds with `[]` although
-`[0]` cannot be navigated in the empty group.  `C24_canon_map` is therefore stated with the guard, and
-`C24_canon_map_absent_key` says what happens outside it. -/
-theorem C24_canon_map_full_fails_on_absent_key : ¬ C24_canon_map_full := by
-  intro hfull
-  have := hfull {} [] ⟨[], []⟩ rfl (.fieldAccessByName "zz") [.arrayAccess 0] (.str "zz") (.arr []) rfl rfl
-  obtain ⟨steps, hres, hnav⟩ := this
-  simp only [resolveSteps, resolveStep] at hres
-  injection hres with hres; subst hres
-  simp [keyGroup, navigate, navigateStep] at hnav
+    selectByPathFromCanonMap sc m h [] = .ok (.arr []) ∧
+    (∀ b bs r, selectByPathFromCanonMap sc m h (b :: bs) ≠ .ok r) ∧
+    (∀ b bs i, resolveStep sc b = some (.idx i) →
+      selectByPathFromCanonMap sc m h (b :: bs) = lambdaErr (.canonStreamNotHaveEnoughValues 0 i)) ∧
+    (∀ b bs s, resolveStep sc b = some s →
+      ∃ e, selectByPathFromCanonMap sc m h (b :: bs) = .error (.catchable (.lambdaApplierError e))) := by
+  have hkey := (canonMapKeyOfPrefix_ok sc h k).mpr hk
+  have hsel : ∀ body, selectByPathFromCanonMap sc m h body =
+      match body with
+      | [] => .ok (.arr [])
+      | b :: bs => selectByPathFromCanonMapStream sc [] b bs := by
+    intro body; rw [canonMap_select_group sc pairs m hm h body k hkey, habsent]
+  refine ⟨hsel [], ?_, ?_, ?_⟩
+  · intro b bs r hr
+    rw [hsel (b :: bs)] at hr
+    obtain ⟨steps, hres, hnav⟩ := (canonMapStream_ok sc [] b bs r).mp hr
+    simp only [resolveSteps] at hres
+    cases hs : resolveStep sc b with
+    | none => simp [hs] at hres
+    | some s =>
+      cases hss : resolveSteps sc bs with
+      | none => simp [hs, hss] at hres
+      | some ss =>
+        simp only [hs, hss] at hres; injection hres with hres; subst hres
+        have := resolveStep_ne_length sc b s hs
+        cases s <;> simp [navigate, navigateStep] at hnav this
+  · intro b bs i hs
+    rw [hsel (b :: bs)]
+    simp [selectByPathFromCanonMapStream, (splitToIdx_ok sc b i).mpr hs]
+  · intro b bs s hs
+    rw [hsel (b :: bs)]
+    simp only [selectByPathFromCanonMapStream]
+    rcases splitToIdx_resolved sc b s hs with ⟨i, hi⟩ | ⟨e, he⟩
+    · rw [hi]; exact ⟨.canonStreamNotHaveEnoughValues 0 i, by simp [lambdaErr, catchable]⟩
+    · rw [he]; exact ⟨e, rfl⟩
 
 /-- **The key group is what plain JSON selection on the map's JSON form gives**, whenever that form is well
 defined: if the keys present in the map render to distinct strings (no `"1"` next to `1`), then selecting
@@ -463,28 +534,34 @@ theorem C24_canon_map_as_json (pairs : List JVal) (m : CanonStreamMap)
 theorem C24_canon_map_failure_is_catchable (sc : Scalars) (henv : EnvTotal sc) (m : CanonStreamMap)
     (h : ValueAccessor) (body : List ValueAccessor) (hh : h ≠ .error) (hb : ∀ a ∈ body, a ≠ ValueAccessor.error) :
     OkOrLensFailure (selectByLambdaFromCanonMap sc m (.valuePath h body)) := by
+  have hstream : ∀ (cs : List JVal) (b : ValueAccessor) (bs : List ValueAccessor), b ≠ .error →
+      (∀ a ∈ bs, a ≠ ValueAccessor.error) → OkOrLensFailure (selectByPathFromCanonMapStream sc cs b bs) := by
+    intro cs b bs hbn hbs
+    simp only [selectByPathFromCanonMapStream]
+    rcases splitToIdx_total sc henv b hbn with ⟨i, hi⟩ | ⟨e, hi, he⟩
+    · rw [hi]
+      simp only []
+      cases hx : cs[i]? with
+      | none => exact .inr ⟨.catchable (.lambdaApplierError (.canonStreamNotHaveEnoughValues cs.length i)), rfl, trivial⟩
+      | some x =>
+        simp only []
+        split
+        · exact .inl ⟨_, rfl⟩
+        · exact select_total sc henv x bs hbs
+    · rw [hi]; exact .inr ⟨e, rfl, he⟩
   simp only [selectByLambdaFromCanonMap, selectByPathFromCanonMap]
   rcases canonMapKeyOfPrefix_total sc henv h hh with ⟨k, hk⟩ | ⟨e, hk, he⟩
   · rw [hk]
     simp only []
     cases hidx : m.index k with
-    | none => cases body <;> exact .inl ⟨_, rfl⟩
+    | none =>
+      cases body with
+      | nil => exact .inl ⟨_, rfl⟩
+      | cons b bs => exact hstream [] b bs (hb b (by simp)) (fun a ha => hb a (by simp [ha]))
     | some cs =>
       cases body with
       | nil => exact .inl ⟨_, rfl⟩
-      | cons b bs =>
-        simp only [selectByPathFromCanonMapStream]
-        rcases splitToIdx_total sc henv b (hb b (by simp)) with ⟨i, hi⟩ | ⟨e, hi, he⟩
-        · rw [hi]
-          simp only []
-          cases hx : cs[i]? with
-          | none => exact .inr ⟨.catchable (.lambdaApplierError (.canonStreamNotHaveEnoughValues cs.length i)), rfl, trivial⟩
-          | some x =>
-            simp only []
-            split
-            · exact .inl ⟨_, rfl⟩
-            · exact select_total sc henv x bs (fun a ha => hb a (by simp [ha]))
-        · rw [hi]; exact .inr ⟨e, rfl, he⟩
+      | cons b bs => exact hstream cs b bs (hb b (by simp)) (fun a ha => hb a (by simp [ha]))
   · rw [hk]; exact .inr ⟨e, rfl, he⟩
 
 /-! ## error codes -/
